@@ -260,6 +260,10 @@ class Recorder(object):
 
     def on_version(self, old, new):
         OBS.append(('version', old, new))
+        if getattr(self, 'hook', False) and self.so is not None:
+            # a migration step: the application issues a replicated call from inside onCodeVersionChanged
+            sid = ('vh', new, CUR[0].nid if CUR[0] is not None else None)
+            self.so.put(sid, callback=functools.partial(self.cb, sid))
 
 
 # --------------------------------------------------------------------------------------
@@ -615,7 +619,7 @@ class Config(object):
     def __init__(self, n=3, observers=0, batch=True, batch_bytes=2 ** 16, chunk=2 ** 16, journal=None,
                  dyn=False, obj='list', period=0.01, tmin=0.04, tmax=0.05, fallback=1e9, wait_leader=True,
                  qsize=1000, min_entries=1000000, exact_time=False, fuse=False, members=None, conf_extra=None,
-                 consumers=None, use_fork=False, h_all=False, methods=(), free_restart=True, spare=0, versions=(0, 1, 2), serializer=None, kill_only=None, send_faults=False):
+                 consumers=None, use_fork=False, h_all=False, methods=(), free_restart=True, spare=0, versions=(0, 1, 2), serializer=None, kill_only=None, send_faults=False, version_hook=False):
         self.n = n
         self.observers = observers
         self.batch = batch
@@ -641,6 +645,7 @@ class Config(object):
         self.versions = tuple(versions)
         self.spare = spare              # absent node ids that a membership change may add
         self.free_restart = free_restart   # restarts do not consume budget (kills do)
+        self.version_hook = version_hook   # onCodeVersionChanged issues a replicated call
         self.send_faults = send_faults     # HX events: a connection breaks in the middle of a multi-message send call
         self.kill_only = kill_only         # restrict kill events to these nodes (None: every journaled voter)
         self.methods = tuple(methods)   # extra replicated methods offered as submissions (besides put)
@@ -736,6 +741,7 @@ def build_node(cfg, nid, members, vfs_obj=None, now=T0, kills=0, extra=None):
     b.vfs = vfs_obj if vfs_obj is not None else vfs.VFS()
     b.tr = SimTransport(nid)
     b.rec = Recorder()
+    b.rec.hook = cfg.version_hook
     seams.CLOCK[0] = now
     seams.CLOCK_DRIFT[0] = 0.0
     seams.RAND[0] = 0.0      # (a previous closing run may have left another answer behind)
